@@ -31,6 +31,7 @@ ANCHORS = ["pyflyby._imports2s:SourceToSourceFileImportsTransformation.add_impor
            "pyflyby._imports2s:SourceToSourceFileImportsTransformation.insert_new_blocks_after_comments",
            "pyflyby._imports2s:SourceToSourceFileImportsTransformation.insert_new_import_block",
            "pyflyby._imports2s:SourceToSourceTransformationBase._from_source_code",
+           "pyflyby._parse:PythonStatement.is_comment_or_blank_or_string_literal", "pyflyby._parse:_ast_str_literal_value",
            "pyflyby._parse:PythonBlock.concatenate", "pyflyby._parse:PythonBlock.groupby",
            "pyflyby._parse:PythonBlock.statements", "pyflyby._parse:_split_code_lines",
            "pyflyby._file:FileText.concatenate",
@@ -79,6 +80,10 @@ WITNESSES = [
     ("concat1", "tidy", "'a' \"b\"\n'second'\ny = 1\n"),
     ("usebefore1", "tidy", '"""doc"""\nx = os.getcwd()\nimport os\nprint(os)\n'),
     ("usebefore2", "tidy", "x = d.attr\nimport d\n"),
+    ("emptydoc1", "tidy", '""\nx = os.getcwd()\n'),
+    ("emptydoc2", "tidy", "#!/usr/bin/python\n# c\n\nx = 1\n"),
+    ("emptydoc3", "tidy", '""\nprint(np.zeros)\nimport sys\nprint(sys)\n'),
+    ("emptydoc4", "tidy", "# c\n\n"" ""\ny = 2\n"),
     ("nested", "reformat", "if x:\n    import b, a\nimport d, c  # gone\n# kept\nimport e\n"),
 ]
 
@@ -139,7 +144,7 @@ def gen_cases(ctx, n, ncorpus=0):
                 cases.append({"kind": "corpus", "path": path, "tool": "reformat", "src": src, "sp": [1, 1], "params": {}, "db": 0,
                               "flags": [True, True, True]})
     for tag, tool, src in WITNESSES:
-        cases.append({"kind": "witness", "tag": tag, "tool": tool, "src": src, "sp": [1, 1], "params": {}, "db": 2 if tag in ("bytes1", "bytes2", "bytes3", "fstr1") else 3 if tag.startswith("doc") or tag in ("top", "comment_only_first", "F39", "F39b", "F39c", "F39d", "F9", "deco", "bytes4", "concat1", "usebefore1", "usebefore2") else 0,
+        cases.append({"kind": "witness", "tag": tag, "tool": tool, "src": src, "sp": [1, 1], "params": {}, "db": 2 if tag in ("bytes1", "bytes2", "bytes3", "fstr1", "emptydoc2", "emptydoc4") else 1 if tag == "emptydoc3" else 3 if tag.startswith("doc") or tag in ("top", "comment_only_first", "F39", "F39b", "F39c", "F39d", "F9", "deco", "bytes4", "concat1", "usebefore1", "usebefore2", "emptydoc1") else 0,
                       "flags": [True, True, True]})
     for tag, tool, src, m in [
             ("map1", "transform_map", "import os\nm_x = 1\ns = 'm/x'  # m-x mXx\nprint(m_x)\n", {"m.x": "n.y"}),
@@ -153,6 +158,8 @@ def gen_cases(ctx, n, ncorpus=0):
                   "use_dir": False, "script": "reformat-imports", "sp": [1, 1], "params": {}, "db": 0, "flags": [True, True, True]})
     cases.append({"kind": "witness", "tag": "multi2", "tool": "cli_multi", "src": "import os", "srcs": ["import os", "y = 2"],
                   "use_dir": True, "script": "tidy-imports", "sp": [1, 1], "params": {}, "db": 0, "flags": [True, True, True]})
+    cases.append({"kind": "witness", "tag": "streams_emptydoc", "tool": "cli_streams", "level": "INFO",
+                  "src": '""\nprint(os.sep, np)\n', "sp": [1, 1], "params": {}, "db": 0, "flags": [True, True, True]})
     cases.append({"kind": "witness", "tag": "streams1", "tool": "cli_streams", "level": "INFO",
                   "src": "import os, sys\nprint(sys, np)\n", "sp": [1, 1], "params": {}, "db": 0, "flags": [True, True, True]})
     cases.append({"kind": "witness", "tag": "streams2", "tool": "cli_streams", "level": "DEBUG",
@@ -175,7 +182,7 @@ def gen_cases(ctx, n, ncorpus=0):
         if tool == "tidy" and r.random() < .08:
             # a name used BEFORE the top-level statement that imports it, no import block ahead of the first use
             nm, imp_ = r.choice([("os", "import os"), ("np", "import numpy as np"), ("foo", "from pkg import foo"), ("x", "import x")])
-            pro = r.choice(["", '"""doc"""\n', "# c\n\n", '#!/usr/bin/python\n"""doc"""\n# c\n'])
+            pro = r.choice(["", '"""doc"""\n', "# c\n\n", '#!/usr/bin/python\n"""doc"""\n# c\n', '""\n', "#!/usr/bin/python\n# c\n''''''\n"])
             src = pro + "%s = %s.attr\n" % (r.choice(["v", "w"]), nm) + r.choice(["", "y = 2\n", "# mid\n"]) + imp_ + "\n" + \
                 r.choice(["", "print(%s)\n" % nm, "z = bar\n"])
             cases.append({"kind": "gen", "i": i, "tool": "tidy", "src": src, "sp": [1, 1], "params": r.choice(PARAMS), "db": 1,
@@ -188,8 +195,11 @@ def gen_cases(ctx, n, ncorpus=0):
             continue
         if r.random() < .02:
             body = G.gen_compilable(r, max_elems=3, import_bias=.2)
+            head = "import json, sys\n"
+            if r.random() < .4:
+                head, body = r.choice(['""\n', "# c\n\n", '#!/usr/bin/python\n""\n']), "sys = 1\n"
             cases.append({"kind": "gen", "i": i, "tool": "cli_streams", "level": r.choice(["INFO", "INFO", "DEBUG", "WARNING"]),
-                          "src": "import json, sys\n" + body + ("" if body.endswith("\n") else "\n") + "print(sys, os.sep, np, undefined_name_q)\n",
+                          "src": head + body + ("" if body.endswith("\n") else "\n") + "print(sys, os.sep, np, undefined_name_q)\n",
                           "sp": [1, 1], "params": {}, "db": 0, "flags": [True, True, True]})
             continue
         if r.random() < .025:
@@ -961,6 +971,12 @@ def compare_one(ctx, c, im, mvs):
         return
     # ---- oracle
     inserts = sum(p["inserts"] for p in im["passes"]) if im["passes"] else None
+    try:
+        d_in, d_out = ast.get_docstring(ast.parse(src), clean=False), ast.get_docstring(ast.parse(im["out"]), clean=False)
+        if d_in is not None and d_in != d_out:
+            ctx.violation("edit_frame/insert_frame", short(c), "the module docstring changed: %r -> %r (a new import block must go after the docstring, also an empty one)" % (d_in, d_out))
+    except (SyntaxError, ValueError):
+        pass
     r = frame_oracle(src, im["out"], inserts)
     if r is not None:
         kind, detail = r
